@@ -196,8 +196,8 @@ pub fn run(ctx: &Ctx) {
     );
     let max_abs = t.pick(120u32, 1000);
     let budget = t.pick(4_000u64, 40_000);
-    ctx.generated("random-arguments", "exp", t.pick(20_000, 200_000), "1..40-digit arguments with magnitudes 1e-60..max, both signs, zeros with a scale; digits*|x| bounded", move || arg_strategy(max_abs, budget), check_exp);
-    ctx.generated("long-digit-strings", "exp", t.pick(3_000, 40_000), "arguments of 41..max digits (all shapes: random, all nines, near powers of two, ...) with |x| < 10", move || long_digits_strategy(t.pick(300, 1200)), check_exp);
-    ctx.generated("near-k-ln10", "exp", t.pick(5_000, 50_000), "x = k*ln(10) (ln10 cut to 8..40 digits) +- d*10^-j: e^x next to a power of ten", move || near_ln10_strategy(t.pick(50, 430)), check_exp);
-    ctx.generated("order-pairs", "pair", t.pick(5_000, 50_000), "x and x + d*10^-j relative: exp must not decrease by more than two units", move || pair_strategy(max_abs.min(300), budget / 2), check_pair);
+    ctx.generated("random-arguments", "exp", t.pick(20_000, 100_000), "1..40-digit arguments with magnitudes 1e-60..max, both signs, zeros with a scale; digits*|x| bounded", move || arg_strategy(max_abs, budget), check_exp);
+    ctx.generated("long-digit-strings", "exp", t.pick(3_000, 20_000), "arguments of 41..max digits (all shapes: random, all nines, near powers of two, ...) with |x| < 10", move || long_digits_strategy(t.pick(300, 1200)), check_exp);
+    ctx.generated("near-k-ln10", "exp", t.pick(5_000, 12_000), "x = k*ln(10) (ln10 cut to 8..40 digits) +- d*10^-j: e^x next to a power of ten", move || near_ln10_strategy(t.pick(50, 430)), check_exp);
+    ctx.generated("order-pairs", "pair", t.pick(5_000, 20_000), "x and x + d*10^-j relative: exp must not decrease by more than two units", move || pair_strategy(max_abs.min(300), budget / 2), check_pair);
 }
